@@ -4,7 +4,9 @@ import fcntl, hashlib, json, os, random, re, shutil, subprocess, sys, time
 
 ROOT = os.path.dirname(os.path.dirname(os.path.abspath(__file__)))
 REPO = os.environ.get("VERIF_REPO", "/repo")
-WORK = os.path.join(ROOT, ".work")
+WORK = os.environ.get("VERIF_WORK") or os.path.join(ROOT, ".work")
+# a scratch run (VERIF_REPO=<worktree> VERIF_WORK=<dir>: seeded changes) keeps its evidence out of /verif/evidence
+EVID = os.path.join(WORK, "evidence") if os.environ.get("VERIF_WORK") else os.path.join(ROOT, "evidence")
 SPEC = os.path.join(ROOT, "spec")
 HARN = os.path.join(ROOT, "harness")
 TLA_JAR = "/opt/veriftools/tla/tla2tools.jar"
@@ -152,7 +154,7 @@ def tlc(spec_rel, cfg, workers=None, timeout=900, simulate=None, depth=None, see
     os.makedirs(meta, exist_ok=True)
     cp = TLA_JAR + ":/opt/veriftools/tla/CommunityModules-deps.jar"
     cmd = ["java", "-Xmx" + xmx, "-XX:+UseParallelGC", "-cp", _tlc_cp(), "tlc2.TLC",
-           "-metadir", meta, "-config", cfg, "-workers", str(workers or "auto")]
+           "-metadir", meta, "-noGenerateSpecTE", "-config", cfg, "-workers", str(workers or "auto")]
     if not deadlock:
         cmd += ["-deadlock"]
     if want_cov:
@@ -256,7 +258,7 @@ def tlc_edges(spec_rel, cfg, timeout=900, env=None, cache=True, simulate=None, d
     h = hashlib.sha256()
     for f in (os.path.basename(spec_path), cfg):
         h.update(open(os.path.join(sdir, f), "rb").read())
-    h.update(json.dumps([env or {}, simulate, depth, seed], sort_keys=True).encode())
+    h.update(json.dumps([env or {}, simulate, depth, seed, "v2"], sort_keys=True).encode())
     key = h.hexdigest()[:20]
     cdir = os.path.join(WORK, "edges")
     os.makedirs(cdir, exist_ok=True)
@@ -274,10 +276,16 @@ def tlc_edges(spec_rel, cfg, timeout=900, env=None, cache=True, simulate=None, d
     fins = {}
     simwalks = []
 
-    def nid(x):
+    nabs = []         # node -> abstraction class (the state with message tags forgotten), for class-wise edge covers
+    absids = {}
+
+    def nid(x, ab=None):
         k = json.dumps(x, sort_keys=True)
         if k not in ids:
             ids[k] = len(ids)
+            # the specification's own abstraction (AbsV) if it exports one, else the state with message tags forgotten
+            ak = json.dumps(ab if ab is not None else abstract(x), sort_keys=True)
+            nabs.append(absids.setdefault(ak, len(absids)))
         return ids[k]
     def dsort(x):
         if isinstance(x, list):
@@ -315,7 +323,7 @@ def tlc_edges(spec_rel, cfg, timeout=900, env=None, cache=True, simulate=None, d
                 chosen.append(pick)
         raw = chosen
     for e in raw:
-        s, d = nid(dsort(e["s"]) if simulate else e["s"]), nid(dsort(e["d"]) if simulate else e["d"])
+        s, d = nid(dsort(e["s"]) if simulate else e["s"], e.get("sabs")), nid(dsort(e["d"]) if simulate else e["d"], e.get("dabs"))
         if e["sa"]["a"] == "init":
             inits.add(s)
             init_acts[str(s)] = e["sa"]
@@ -325,11 +333,24 @@ def tlc_edges(spec_rel, cfg, timeout=900, env=None, cache=True, simulate=None, d
             simwalks[-1].append(len(edges))
         edges.append([s, d, canon(e["act"]), canon(e["obs"])])
         fins[str(d)] = e.get("fin")
-    g = dict(edges=edges, inits=sorted(inits), init_acts=init_acts, fins=fins, nstates=len(ids), walks=simwalks, generated=res["generated"],
+    g = dict(nabs=nabs, edges=edges, inits=sorted(inits), init_acts=init_acts, fins=fins, nstates=len(ids), walks=simwalks, generated=res["generated"],
              distinct=res["distinct"], depth=res["depth"], wall=res["wall"], cmd=res["cmd"])
     with open(cfile, "w") as f:
         json.dump(g, f)
     return g
+
+
+def abstract(x):
+    """Forget message tags (integers >= 100): two states that differ only in which messages they hold are one class."""
+    if isinstance(x, bool):
+        return x
+    if isinstance(x, int):
+        return "M" if x >= 100 else x
+    if isinstance(x, list):
+        return [abstract(v) for v in x]
+    if isinstance(x, dict):
+        return {k: abstract(v) for k, v in x.items()}
+    return x
 
 
 def canon(x):
@@ -342,12 +363,24 @@ def canon(x):
     return x
 
 
+def matches(obs, exp):
+    """obs == exp, except that an expected string "a|b" stands for either alternative (outcomes that depend on a race the
+    driver does not control, e.g. the reaper against the closing thread)."""
+    if isinstance(exp, str) and "|" in exp:
+        return obs in exp.split("|")
+    if isinstance(exp, dict) and isinstance(obs, dict):
+        return set(exp) == set(obs) and all(matches(obs[k], exp[k]) for k in exp)
+    if isinstance(exp, list) and isinstance(obs, list):
+        return len(exp) == len(obs) and all(matches(o, e) for o, e in zip(obs, exp))
+    return obs == exp
+
+
 def act_in(act):
     """The part of an action record the driver is given (everything except the expected output)."""
     return {k: v for k, v in act.items() if k != "out"}
 
 
-def cover_walks(g, rng, maxlen=30, limit=None, budget_edges=None, budget_s=1200):
+def cover_walks(g, rng, maxlen=30, limit=None, budget_edges=None, budget_s=1200, by_class=False):
     """Walks from an initial state that together cover every edge of g.
     Greedy: take an uncovered out-edge if there is one, otherwise jump along a shortest path to the
     nearest state that has one.  Each walk is a list of edge indices (<= maxlen unless a single
@@ -360,7 +393,11 @@ def cover_walks(g, rng, maxlen=30, limit=None, budget_edges=None, budget_s=1200)
     total = 0
     for i, (s, d, a, o) in enumerate(edges):
         out_e.setdefault(s, []).append(i)
-        k = (s, d, json.dumps(a, sort_keys=True))
+        if by_class and g.get("nabs"):
+            # one representative per (class of source, action with tags forgotten, class of target)
+            k = (g["nabs"][s], g["nabs"][d], json.dumps(abstract(a), sort_keys=True))
+        else:
+            k = (s, d, json.dumps(a, sort_keys=True))
         if k in seen:
             continue
         seen.add(k)
@@ -432,6 +469,106 @@ def cover_walks(g, rng, maxlen=30, limit=None, budget_edges=None, budget_s=1200)
     return walks, total, total - remaining
 
 
+def cover_walks_fast(g, rng, maxlen=30, limit=None, by_class=True, near=3):
+    """Edge cover for large graphs: one breadth-first tree from the initial state gives every state its shortest approach path;
+    each walk goes to the source of a still uncovered (class of) edge and then keeps taking uncovered edges, looking at most
+    `near` steps ahead for the next one.  Linear in the total length of the walks."""
+    from collections import deque
+    edges = g["edges"]
+    nabs = g.get("nabs") if by_class else None
+    out_e = {}
+    for i, (s, d, a, o) in enumerate(edges):
+        out_e.setdefault(s, []).append(i)
+    # classes still to cover: class key -> list of member edges
+    key_of = []
+    members = {}
+    for i, (s, d, a, o) in enumerate(edges):
+        k = (nabs[s], nabs[d], json.dumps(abstract(a), sort_keys=True)) if nabs else (s, d, json.dumps(a, sort_keys=True))
+        key_of.append(k)
+        members.setdefault(k, []).append(i)
+    uncovered = set(members)
+    total = len(uncovered)
+    inits = g["inits"] or [0]
+    parent = {i: None for i in inits}
+    depth = {i: 0 for i in inits}
+    dq = deque(inits)
+    while dq:
+        x = dq.popleft()
+        for i in out_e.get(x, ()):
+            d = edges[i][1]
+            if d not in parent:
+                parent[d] = i
+                depth[d] = depth[x] + 1
+                dq.append(d)
+
+    def approach(n):
+        path = []
+        while parent.get(n) is not None:
+            path.append(parent[n])
+            n = edges[parent[n]][0]
+        path.reverse()
+        return path
+
+    def take(i, walk):
+        walk.append(i)
+        uncovered.discard(key_of[i])
+
+    def next_uncovered(cur):
+        """an uncovered edge at most `near` steps away: list of edges to take"""
+        lst = [i for i in out_e.get(cur, ()) if key_of[i] in uncovered]
+        if lst:
+            return [rng.choice(lst)]
+        seen = {cur: []}
+        fr = [cur]
+        for _ in range(near):
+            nf = []
+            for x in fr:
+                for i in out_e.get(x, ()):
+                    d = edges[i][1]
+                    if d in seen:
+                        continue
+                    seen[d] = seen[x] + [i]
+                    cand = [j for j in out_e.get(d, ()) if key_of[j] in uncovered]
+                    if cand:
+                        return seen[d] + [rng.choice(cand)]
+                    nf.append(d)
+            fr = nf
+        return None
+    # deepest targets first: their approach paths pass many shallower states
+    order = sorted(members, key=lambda k: -min(depth.get(edges[i][0], 1 << 30) for i in members[k]))
+    walks = []
+    for k in order:
+        if k not in uncovered:
+            continue
+        cands = [i for i in members[k] if edges[i][0] in depth]
+        if not cands:
+            uncovered.discard(k)      # not reachable from an initial state
+            total -= 1
+            continue
+        i0 = min(cands, key=lambda i: depth[edges[i][0]])
+        walk = []
+        for i in approach(edges[i0][0]):
+            take(i, walk)
+        take(i0, walk)
+        cur = edges[i0][1]
+        while len(walk) < maxlen:
+            nx = next_uncovered(cur)
+            if nx is None or len(walk) + len(nx) > maxlen:
+                break
+            for i in nx:
+                take(i, walk)
+            cur = edges[walk[-1]][1]
+        walks.append(walk)
+    rng.shuffle(walks)
+    if limit and len(walks) > limit:
+        walks = walks[:limit]
+        cov = set()
+        for w in walks:
+            cov.update(key_of[i] for i in w)
+        return walks, total, len(cov)
+    return walks, total, total - len(uncovered)
+
+
 def random_walks(g, rng, n, maxlen):
     edges = g["edges"]
     out_e = {}
@@ -476,7 +613,7 @@ class GraphJudge:
                 for i in self.out.get((s, k), []):
                     _, d, a, o = self.g["edges"][i]
                     allowed.append(dict(out=a.get("out"), obs=o))
-                    if a.get("out") == oout and o == oobs:
+                    if matches(oout, a.get("out")) and matches(oobs, o):
                         nxt.add(d)
             if not nxt:
                 return False, n, allowed
@@ -552,8 +689,8 @@ class Verdict:
         ev["coverage"]["spec_drift"] = self.drift
         if not ev["coverage"]["samples"]:
             ev["coverage"]["samples"] = ["(none)"]
-        os.makedirs(os.path.join(ROOT, "evidence"), exist_ok=True)
-        with open(os.path.join(ROOT, "evidence", self.prop + ".json"), "w") as f:
+        os.makedirs(EVID, exist_ok=True)
+        with open(os.path.join(EVID, self.prop + ".json"), "w") as f:
             json.dump(ev, f, indent=1, sort_keys=True)
         for sig, text in self.known_seen:
             print("KNOWN-FINDING: property=%s sig=%s %s" % (self.prop, sig, text))
